@@ -64,12 +64,19 @@ P('C03', claimed=True, level='other', contracts=['base_utils', 'synth_ugen'], dr
               'from {scalar, tuple, lists of length 1-3, nested, ChannelList, default} for the first 3 '
               'parameters; the law is relative to the single-channel call.'))
 
-P('C04', claimed=True, level='exploration', drivers=['vf.drivers.C04'],
-  level_text=('Control layout, name table, lags, wiring of the body to control outputs, rates/'
-              'annotations, prepend, wrap nesting, metadata specs, variants and call mapping are '
-              'checked on the emitted bytes (independent SCgf reader) for exhaustively enumerated '
-              'signatures of up to 3 parameters and random ones up to 40.'),
-  level_note='Signature introspection (inspect) is outside the provable subset: bounded only.')
+P('C04', claimed=True, level='other', contracts=['synth_controls'], drivers=['vf.drivers.C04'],
+  level_text=('The slot-counter discipline the layout rests on is under contract (pyvc, all inputs): a control '
+              'unit starts at the current length of the defaults array, appends exactly its own values and '
+              'advances the slot counter by as much (Control/AudioControl/LagControl._init_ugen), the '
+              'invariant counter == array length, and every name entered by SynthDef._add_ir/_tr/_ar/_kr '
+              'gets index = slots so far, arg_num = names so far and its rate; a lemma over these contracts '
+              'gives the tiling of a unit\'s slots by its names. Everything else (signature -> names, grouping '
+              'by rate, reshape to argument order, name table/defaults/variants in the bytes, wiring of the '
+              'body, call mapping) is checked on the emitted bytes with an independent SCgf reader for '
+              'exhaustively enumerated signatures of up to 3 parameters and random ones up to 40 (bounded).'),
+  level_note=('Signature introspection (inspect) and SynthDef._build_controls (nested function with nonlocal '
+              'state) are outside the provable subset: bounded only. The defaults array and the name tables are '
+              'abstracted to their lengths plus the trace of appended elements.'))
 
 P('C05', claimed=True, level='other',
   contracts=['base_clock_loops', 'base_clock_sched', 'base_stream', 'base_main'], drivers=['vf.drivers.C05'],
